@@ -158,7 +158,9 @@ def impl_encode(case):
     out["val"] = encode_out(P)
     L = case["fields"][0][1]
     if L <= 6:
-        out["_enc"] = dense(P.as_matrix(), 2 ** L)
+        raw = P.as_matrix()
+        out["_enc_shape"] = None if isinstance(raw, (int, float, complex)) else tuple(int(v) for v in np.shape(raw))
+        out["_enc"] = dense(raw, 2 ** L)
         try:
             out["_op"] = dense(op.as_matrix(), 2 ** L)
         except Exception as e:
@@ -333,6 +335,9 @@ def oracle(case, o):
         return bad
     L = case["fields"][0][1]
     E = o["_enc"]
+    if o.get("_enc_shape") is not None and o["_enc_shape"] != (2 ** L, 2 ** L):
+        # the only matrix without a shape is the plain number 0 of an operator without strings (documented in PauliOperator.as_matrix)
+        return [(f"{PROP}:{ENC}_encode:matrix-shape", f"encoded operator's matrix has shape {o['_enc_shape']}, the field operator's has {(2 ** L, 2 ** L)}")]
     if not np.all(np.isfinite(E)):
         return [(f"{PROP}:{ENC}_encode:non-finite-matrix", "NaN/Inf in the encoded operator's matrix")]
     if "_op_raised" in o:
